@@ -132,7 +132,7 @@ theorem computeEdges_size (data : List Byte) (w ws minMatch maxMatch : Nat)
     | none => rw [computeEdges_none _ _ _ _ _ (Or.inr hseg)]; simp
     | some cbs =>
       rcases computeEdges_cases h with ⟨hlt, _⟩ | ⟨cbs', st, H, hI, e⟩ | h0
-      · have : cbs = [] := segments_lt (by omega) hseg
+      · have : cbs = [] := ceSegs_lt (by omega) hseg
         subst this
         rw [computeEdges_some _ _ _ _ _ hne hseg]; simp
       · rw [e]; exact hI.size
@@ -205,7 +205,7 @@ theorem ex_maxlen : ceMaxLen exData 2 8 4 = 2 := by
   unfold ceMaxLen; rw [ex_maxlcp]; rfl
 theorem ex_segs : ceSegs exData 2 8 2 4 = some [(2, 0, 2)] := by
   unfold ceSegs; rw [ex_lcp, ex_maxlen, ex_t, ex_sa]
-  simp [segments, scanLCP, scanFrom, popLoop, Int.min_def]
+  simp [segments32, segments, scanLCP, scanFrom, popLoop, Int.min_def]
 
 theorem ex_segHyps : SegHyps exData [2, 0, 3, 1] 2 2 [(2, 0, 2)] := by
   refine ⟨by decide, ?_, ?_, ?_, by simp⟩
